@@ -1,18 +1,21 @@
 """C16 — communicator (frappy/io.py StringIO / BytesIO over frappy/lib/asynconn.py AsynTcp): implementation driver (real
 modules, real caller threads and the real poll thread under harness/dsched.py, scripted fake socket in virtual time),
-case encoder, direct oracle, generators"""
+case encoder, direct oracle, generators.  A second kind of case ('rx': True, harness/c16rx.py) drives the receive layer
+alone: one real AsynTcp object on a scripted socket with arrival times, scripts of readline / readbytes / flush_recv
+calls, exhaustive chunkings of short streams"""
 import math
 import random
 
 from harness import gal
+from harness import c16rx
 
 ID = 'C16'
 MODEL_TARGETS = ['theories/C16/Run.vo']
 PROOF_TARGETS = ['theories/C16/Properties.vo']
 PROPERTIES_V = 'theories/C16/Properties.v'
-IMPORTS = 'Require Import FV.Gen.C16 FV.C16.Model FV.C16.Run.\nOpen Scope Z_scope.'
-CASE_TYPE = 'case'
-CHECK = 'check_case'
+IMPORTS = 'Require Import FV.Gen.C16 FV.C16.Model FV.C16.RxModel FV.C16.Run.\nOpen Scope Z_scope.'
+CASE_TYPE = 'tcase'
+CHECK = 'check_tcase'
 SHARD_SIZE = 100
 TICK = 8               # ticks per second: every delay / time-out / interval is a multiple of 1/8 s
 T0 = 1000.0            # virtual start time
@@ -26,7 +29,11 @@ RULE = ('one real StringIO (end_of_line "\\n", "\\r\\n" or ";") or BytesIO modul
         'synchronisation-point granularity (seeded / sticky / bounded preemption / explicit) in virtual time; every '
         'case is a real multi-thread run replayable from its decision list; non-trivial = at least two commands were '
         'sent or a connection attempt was refused or the connection was lost; distinct = distinct (programs, executed '
-        'step sequence)')
+        'step sequence).  Receive layer cases: one real AsynTcp object (frappy.lib.asynconn.socket/select/time replaced, '
+        'single thread) on a socket queue with arrival times, a script of readline / readbytes / flush_recv / wait calls; '
+        'all 2^(n-1) chunkings of 13 short streams (1- and 2-byte end-of-line incl. "\\r\\n", ";;", "ab"; fixed-length '
+        'frames) under three timings (dense, an empty slice between any two chunks, a flush in the middle) plus random '
+        'queues with end of stream; result, clock, _rxbuffer and chunks left in the socket are compared after every call')
 ASSUMPTIONS = [
     'granularity: threads are interleaved at synchronisation points (acquire of the communicator lock and of accessLock, '
     'time.sleep, socket connect / sendall / blocking recv, Event.wait of the poll thread); preemption between two bytecodes '
@@ -38,8 +45,12 @@ ASSUMPTIONS = [
     'the poll thread is the real Module.__pollThread serving the communicator only; the model treats its own timing as '
     'arbitrary (it may call read_is_connected at any time) and follows only what read_is_connected does',
     'triggerPoll.set() (called by the trigger_polls reconnect callback) is not a scheduling point',
+    'receive layer cases: the socket is first-in-first-out with non-decreasing arrival times, recv returns one scheduled '
+    'chunk (at its arrival if that is within the slice), b"" only at the end of the stream; serial connections '
+    '(AsynSerial) are not exercised',
 ]
 
+MAX_SOCKET_CALLS = 2000      # per run (the generated runs need < 100); the logs of a run that is cut off are truncated
 CB_KINDS = {'T': 0, 'F': 1, 'N': 2, 'E': 3}     # returns True / returns False / returns None / raises
 TRIGGER_KEY = 99
 
@@ -78,6 +89,8 @@ def cmd_text(xid):
 
 
 def run_case(case):
+    if case.get('rx'):
+        return c16rx.run_rx(case)
     import socket as real_socket
     import frappy.io as fio
     import frappy.lib.asynconn as fa
@@ -112,6 +125,15 @@ def run_case(case):
     def who():
         cur = s.current_thread()
         return cur.name if cur is not None else '?'
+
+    budget = {'socket_calls': 0}
+
+    def count_socket_call():
+        # a receive loop of the code under test that never ends (no scheduling point inside) is cut off here
+        budget['socket_calls'] += 1
+        if budget['socket_calls'] > MAX_SOCKET_CALLS:
+            raise c16rx.Runaway(f'more than {MAX_SOCKET_CALLS} socket calls in one run: a receive loop of the code under test '
+                                'does not end')
 
     class FakeSocket:
         def __init__(self, cid):
@@ -148,6 +170,7 @@ def run_case(case):
                     self._insert(s.now + x['close'] / TICK, None, xid)
 
         def recv(self, n):
+            count_socket_call()
             if self.local_closed:
                 raise OSError('recv on closed socket')
             kind = 'recv'
@@ -207,6 +230,7 @@ def run_case(case):
     class FakeSelectModule:
         @staticmethod
         def select(r, w, x, timeout=None):
+            count_socket_call()
             ready = [k for k in r if k.ready()]
             for k in ready:
                 k.peeked = True
@@ -369,13 +393,19 @@ def run_case(case):
                 s.time_module.sleep(tail / TICK)
 
         res = s.run(main)
+        cut_off = budget['socket_calls'] > MAX_SOCKET_CALLS or res.status != 'ok'
+        if cut_off:
+            # a run that did not end by itself is reported by the oracle as such; keep only the beginning of its logs
+            for key in ('recvs', 'ev', 'sends', 'chunks', 'ann', 'cbs', 'polls'):
+                del log[key][300:]
         trace = []
-        for n, (t, lab, info) in enumerate(res.trace):
+        for n, (t, lab, info) in enumerate(res.trace[:300] if cut_off else res.trace):
             if t != 'main':
                 trace.append([t, lab, _ticks(steptimes[n]), info])
         return {
-            'status': res.status, 'main_error': res.error, 'trace': trace, 'decisions': res.decisions,
-            'results': results, 'log': log, 'thread_errors': res.thread_errors, 'now': _ticks(res.now),
+            'status': res.status, 'main_error': res.error, 'trace': trace,
+            'decisions': res.decisions[:300] if cut_off else res.decisions,
+            'results': results, 'log': log, 'cut_off': cut_off, 'thread_errors': res.thread_errors, 'now': _ticks(res.now),
             'connected': bool(io.is_connected), 'has_conn': io._conn is not None, 'nconn': len(conns),
             'cbkeys': [int(k[1:]) if k[0] == 'k' else TRIGGER_KEY for k in io._reconnectCallbacks],
             'last_error': io._last_error is not None, 'last_attempt': _ticks(io._last_connect_attempt),
@@ -440,6 +470,12 @@ def enc_mode(case):
 
 
 def encode(case, obs):
+    if case.get('rx'):
+        return c16rx.encode_rx(case, obs)
+    return f'(TSys {encode_sys(case, obs)})'
+
+
+def encode_sys(case, obs):
     if obs['status'] != 'ok' or obs['main_error'] or obs['thread_errors']:
         raise ValueError(f"run did not complete: {obs['status']} {obs['main_error']} {obs['thread_errors']}")
     trace = obs['trace']
@@ -470,7 +506,9 @@ def encode(case, obs):
 
 
 def model_result_term(case, obs):
-    return f'model_result ({encode(case, obs)})'
+    if case.get('rx'):
+        return f'rx_model ({c16rx.rx_term(case, obs)})'
+    return f'model_result ({encode_sys(case, obs)})'
 
 
 # ------------------------------------------------------------------ generators
@@ -601,7 +639,8 @@ def rand_case(rng):
 def gen_cases(seed, tier):
     rng = random.Random(seed * 1000003 + 16)
     n = {'quick': 2200, 'thorough': 25000, 'search': 25000}[tier]
-    return [rand_case(rng) for _ in range(n)]
+    sys_cases = [rand_case(rng) for _ in range(n)]
+    return c16rx.gen_rx_cases(random.Random(seed * 1000003 + 1016), tier) + sys_cases
 
 
 # ------------------------------------------------------------------ direct oracle: the property on the observation
@@ -623,11 +662,16 @@ def _exchanges(op):
 
 
 def oracle(case, obs):
+    if case.get('rx'):
+        return c16rx.oracle_rx(case, obs)
     fails = []
 
     def fail(cls, what):
         fails.append({'class': cls, 'what': what})
 
+    if any(str(e).startswith('Runaway') for e in obs['thread_errors'].values()):
+        fail('receive-loop-does-not-end', f"a call kept polling the socket without end and was cut off: {obs['thread_errors']}")
+        return fails
     if obs['status'] != 'ok' or obs['main_error'] or obs['thread_errors']:
         fail('run-' + obs['status'], f"the run did not complete: {obs['status']} {obs['main_error']} "
              f"{obs['thread_errors']} blocked: {obs['blocked_at_end']}")
@@ -860,6 +904,8 @@ FINDING_CLASSIFIERS = {}     # both findings of C16 were repaired in /repo (18d6
 
 
 def nontrivial_key(case, obs):
+    if case.get('rx'):
+        return c16rx.nontrivial_key_rx(case, obs)
     if obs['status'] != 'ok':
         return None
     log = obs['log']
@@ -869,6 +915,8 @@ def nontrivial_key(case, obs):
 
 
 def outcome_labels(case, obs):
+    if case.get('rx'):
+        return c16rx.outcome_labels_rx(case, obs)
     labs = {case['mode']}
     log = obs['log']
     for rs in obs['results']:
@@ -895,19 +943,26 @@ def outcome_labels(case, obs):
 
 
 def sample_repr(case, obs):
+    if case.get('rx'):
+        return c16rx.sample_repr_rx(case, obs)
     return {'case': case, 'results': obs['results'], 'sends': obs['log']['sends'], 'connects': obs['log']['connects'],
             'steps': [f'{t}:{lab}@{now}' for t, lab, now, _ in obs['trace']][:60]}
 
 
 def extra_evidence(cases, obs):
-    ok = [o for o in obs if '__harness_error__' not in o]
-    return {'schedule_steps_total': sum(len(o['trace']) for o in ok),
+    rx = [o for o in obs if '__harness_error__' not in o and o.get('rx')]
+    ok = [o for o in obs if '__harness_error__' not in o and not o.get('rx')]
+    return {'receive_layer_cases': len(rx), 'receive_layer_calls_total': sum(len(o['steps']) for o in rx),
+            'receive_layer_socket_recvs_total': sum(o['recvs'] for o in rx),'schedule_steps_total': sum(len(o['trace']) for o in ok),
             'max_steps_in_a_run': max((len(o['trace']) for o in ok), default=0),
             'commands_written_total': sum(len(o['log']['sends']) for o in ok),
             'connection_attempts_total': sum(len(o['log']['connects']) for o in ok)}
 
 
 def shrink(case):
+    if case.get('rx'):
+        yield from c16rx.shrink_rx(case)
+        return
     threads = case['threads']
     if case['sched']['kind'] == 'explicit':
         return
